@@ -33,6 +33,7 @@ import (
 	"sync"
 	"time"
 
+	"github.com/iancoleman/orderedmap"
 	appchainmgr "github.com/meshplus/bitxhub-core/appchain-mgr"
 	"github.com/meshplus/bitxhub-core/governance"
 	ruleMgr "github.com/meshplus/bitxhub-core/rule-mgr"
@@ -41,6 +42,7 @@ import (
 	"github.com/meshplus/bitxhub-kit/types"
 	"github.com/meshplus/bitxhub-model/constant"
 	"github.com/meshplus/bitxhub-model/pb"
+	"github.com/meshplus/bitxhub/internal/executor/contracts"
 	"github.com/meshplus/bitxhub/pkg/proof"
 	"github.com/meshplus/bitxhub/pkg/utils"
 	"github.com/meshplus/bitxhub/verifharness/hx"
@@ -529,6 +531,7 @@ type step struct {
 	Trust    []string   `json:"trust"` // validator key specs of a relay chain
 	TrustHex string     `json:"trust_hex"`
 	Relay    bool       `json:"relay"`
+	CType    string     `json:"ctype"`
 	Svc      string     `json:"svc"`
 	Ordered  bool       `json:"ordered"`
 	Acct     string     `json:"acct"`
@@ -572,7 +575,7 @@ func (w *world) counter(m map[string]*pb.VerifiedIndexSlice) [][]interface{} {
 
 func (w *world) doStep(s *step) map[string]interface{} {
 	switch s.Op {
-	case "seed_chain", "drop_chain", "seed_service", "fund", "set_code", "set_wasm_rule", "set_state":
+	case "seed_chain", "drop_chain", "seed_service", "fund", "set_code", "set_wasm_rule", "set_state", "seed_appchain_admin":
 		w.pending = append(w.pending, s)
 	case "block":
 		// The executed event of the previous block is posted BEFORE the executor's trailing
@@ -607,6 +610,9 @@ func (w *world) doStep1(s *step) map[string]interface{} {
 		if s.Relay {
 			chain.ChainType = appchainmgr.RelaychainType
 		}
+		if s.CType != "" {
+			chain.ChainType = s.CType
+		}
 		if s.Trust != nil {
 			var addrs []string
 			for _, t := range s.Trust {
@@ -622,7 +628,18 @@ func (w *world) doStep1(s *step) map[string]interface{} {
 		var rules []*ruleMgr.Rule
 		if s.Rules != nil {
 			for i, r := range s.Rules {
-				rules = append(rules, &ruleMgr.Rule{Address: ruleAddr(r[0]), ChainID: s.Chain, Master: i == 0, Status: governance.GovernanceStatus(r[1])})
+				// by default the Master flag goes to the first available rule (the invariant of the real flows)
+				master := r[1] == "available"
+				for _, q := range s.Rules[:i] {
+					if q[1] == "available" {
+						master = false
+					}
+				}
+				if len(r) > 2 {
+					master = r[2] == "master"
+				}
+				rules = append(rules, &ruleMgr.Rule{Address: ruleAddr(r[0]), ChainID: s.Chain, Master: master, Default: ruleAddr(r[0]) == validator.HappyRuleAddr,
+					Status: governance.GovernanceStatus(r[1])})
 			}
 		} else if s.Rule != "none" {
 			st := governance.GovernanceAvailable
@@ -637,6 +654,28 @@ func (w *world) doStep1(s *step) map[string]interface{} {
 		} else if s.Rule == "none" {
 			l.SetState(constant.RuleManagerContractAddr.Address(), []byte(ruleMgr.RuleKey(s.Chain)), nil, nil)
 		}
+	case "seed_appchain_admin": // the role records UpdateAppchainAdmin writes when an appchain registration is approved
+		addr := w.addr(s.Acct).String()
+		l := c.Ledger
+		roleAddr := constant.RoleContractAddr.Address()
+		m := orderedmap.New()
+		m.Set(addr, struct{}{})
+		md, _ := json.Marshal(m)
+		l.SetState(roleAddr, []byte(contracts.RoleAppchainAdminKey(s.Chain)), md, nil)
+		l.SetState(roleAddr, []byte(contracts.RoleTypeKey(string(contracts.AppchainAdmin))), md, nil)
+		rd, _ := json.Marshal(contracts.Role{ID: addr, RoleType: contracts.AppchainAdmin, AppchainID: s.Chain, Status: governance.GovernanceAvailable})
+		l.SetState(roleAddr, []byte(contracts.RoleKey(addr)), rd, nil)
+	case "rules": // the rule list of a chain as the proof pool will read it: [[address, status, master], ...]
+		ok, data := c.Ledger.GetState(constant.RuleManagerContractAddr.Address(), []byte(ruleMgr.RuleKey(s.Chain)))
+		var rl []*ruleMgr.Rule
+		if ok {
+			_ = json.Unmarshal(data, &rl)
+		}
+		var lst [][]interface{}
+		for _, r := range rl {
+			lst = append(lst, []interface{}{strings.ToLower(r.Address), string(r.Status), r.Master})
+		}
+		out["rules"] = lst
 	case "drop_chain":
 		c.Ledger.SetState(constant.AppchainMgrContractAddr.Address(), []byte(appchainmgr.AppchainKey(s.Chain)), nil, nil)
 	case "seed_service":
@@ -757,7 +796,17 @@ func (w *world) doStep1(s *step) map[string]interface{} {
 		tx := w.buildTx(s.Tx)
 		w.nonces[s.Tx.From]--
 		v := proof.New(c.Ledger, c.Logger, c.Opts.ChainID, c.Cfg.GasLimit)
-		ok, _, err := v.CheckProof(tx)
+		var ok bool
+		var err error
+		func() {
+			// the executor guards this call (BlockExecutor.checkProof); a panicking rule engine is a rejection
+			defer func() {
+				if r := recover(); r != nil {
+					ok, err = false, fmt.Errorf("proof verify failed: %v", r)
+				}
+			}()
+			ok, _, err = v.CheckProof(tx)
+		}()
 		out["ok"] = ok
 		if err != nil {
 			out["cls"] = errClass(err.Error())
@@ -802,16 +851,9 @@ func runOne(_ []string) error {
 	if err := json.Unmarshal(data, &h); err != nil {
 		return err
 	}
-	c, err := hx.NewChain(hx.ChainOpts{NumAdmins: h.Cfg.Admins, GasPrice: h.Cfg.Gas, EnableAudit: h.Cfg.Audit, Balance: h.Cfg.Bal, Quiet: true})
+	c, err := hx.NewChain(hx.ChainOpts{NumAdmins: h.Cfg.Admins, GasPrice: h.Cfg.Gas, EnableAudit: h.Cfg.Audit, Balance: h.Cfg.Bal, Quiet: true, ProofType: h.Cfg.Proof})
 	if err != nil {
 		return err
-	}
-	if h.Cfg.Proof != "" && h.Cfg.Proof != "serial" {
-		// the executor copies the configuration when it is created: reopen the stack with the new value
-		c.Cfg.Executor.ProofType = h.Cfg.Proof
-		if err := c.Restart(); err != nil {
-			return err
-		}
 	}
 	w := &world{c: c, nonces: map[string]uint64{}}
 	w.buildRev()
